@@ -61,6 +61,7 @@ type Sched struct {
 	poolND   bool // nondeterministic sync.Pool.Get
 	Switches int
 	preemptions  int
+	settling     *G // goroutine waiting in verifSettle: others run without being preempted
 	preemptBound int
 }
 
@@ -123,6 +124,29 @@ func (s *Sched) schedPoint() {
 	for _, g := range s.gs {
 		if s.enabled(g) {
 			en = append(en, g)
+		}
+	}
+	if s.settling != nil && len(en) > 1 {
+		// run the others to quiescence first
+		var rest []*G
+		for _, g := range en {
+			if g != s.settling {
+				rest = append(rest, g)
+			}
+		}
+		en = rest
+		if len(en) > 0 {
+			pick := en[0]
+			for _, g := range en {
+				if g == cur {
+					pick = g
+				}
+			}
+			if pick.blocked {
+				pick.blocked = false
+			}
+			s.switchTo(pick)
+			return
 		}
 	}
 	if len(en) == 0 {
@@ -191,11 +215,29 @@ func (s *Sched) block() {
 	// when we come back we have been switched to
 }
 
+// yield (time.Sleep, runtime.Gosched): the caller gives up the processor, so
+// if any other goroutine is enabled one of them runs next (a fair schedule:
+// a polling loop cannot starve the goroutine it is waiting for).
 func (it *Interp) yield(fr *frame) {
-	if it.sched == nil || len(it.sched.gs) < 2 {
+	s := it.sched
+	if s == nil || len(s.gs) < 2 {
 		return
 	}
-	it.sched.schedPoint()
+	cur := s.cur
+	var others []*G
+	for _, g := range s.gs {
+		if g != cur && s.enabled(g) {
+			others = append(others, g)
+		}
+	}
+	if len(others) == 0 {
+		return
+	}
+	next := others[it.ex.choose(len(others))]
+	if next.blocked {
+		next.blocked = false
+	}
+	s.switchTo(next)
 }
 
 func (it *Interp) goStmt(fr *frame, cc *ssa.CallCommon, fv Value, args []Value, site ssa.Instruction) {
